@@ -1115,6 +1115,29 @@ func (x *Exec) evalBuiltinSpec(ce *CEnv, name string, args []Expr) (*Val, bool) 
 	case "sqrt":
 		v := x.coerce(x.eval(ce, args[0]), float64T)
 		return &Val{Typ: float64T, T: x.mathSqrt(ce.guard, v.T)}, true
+	case "visited":
+		// visited(k): key k has already been yielded by the map iteration of the current loop
+		if ce.loop == nil {
+			cfail("visited() is only meaningful in the invariant of a loop that ranges over a map")
+		}
+		var rng *ssa.Range
+		for b := range ce.loop.blocks {
+			for _, in := range b.Instrs {
+				if nx, ok := in.(*ssa.Next); ok && !nx.IsString {
+					if r, ok := nx.Iter.(*ssa.Range); ok {
+						if _, isMap := r.X.Type().Underlying().(*types.Map); isMap {
+							rng = r
+						}
+					}
+				}
+			}
+		}
+		if rng == nil {
+			cfail("visited(): the current loop does not range over a map")
+		}
+		mt := rng.X.Type().Underlying().(*types.Map)
+		k := x.coerce(x.eval(ce, args[0]), mt.Key())
+		return &Val{Typ: boolT, T: x.sel(x.getHeap(ce.st, x.visitKey(rng, mt)), x.asTerm(k), "Bool")}, true
 	case "pow2":
 		// pow2(e) for integer e >= 0: uninterpreted, with the defining facts
 		// instantiated at this argument (pow2(0)=1, pow2(e+1)=2*pow2(e), pow2(e)>=1)
